@@ -7,6 +7,8 @@ import TTModel.Trunc
 import TTModel.Shape
 import TTModel.Heap
 import TTModel.Guard
+import TTModel.Sweep
+import TTModel.Kernels
 import TTModel.Scalar
 /-!
 # Line-protocol driver: one operation per input line, one canonical outcome per output line.
@@ -261,6 +263,63 @@ def run : PM String := do
       match o with
       | .ok => pure "ok"
       | .err e => pure (showErr e)
+  | "phifwdA" => do
+      let (_, P) ← dense; let x ← core; let A ← core; let y ← core
+      let r := Kern.phiFwdA (fun a b c => P [a,b,c]) x A y
+      pure (showDense [x.r1, A.r1, y.r1] (fun i => r (i.getD 0 0) (i.getD 1 0) (i.getD 2 0)))
+  | "phibckA" => do
+      let (_, P) ← dense; let x ← core; let A ← core; let y ← core
+      let r := Kern.phiBckA (fun a b c => P [a,b,c]) x A y
+      pure (showDense [x.r0, A.r0, y.r0] (fun i => r (i.getD 0 0) (i.getD 1 0) (i.getD 2 0)))
+  | "phifwdrhs" => do
+      let (_, P) ← dense; let b ← core; let x ← core
+      let r := Kern.phiFwdRhs (fun a c => P [a,c]) b x
+      pure (showDense [b.r1, x.r1] (fun i => r (i.getD 0 0) (i.getD 1 0)))
+  | "phibckrhs" => do
+      let (_, P) ← dense; let b ← core; let x ← core
+      let r := Kern.phiBckRhs (fun a c => P [a,c]) b x
+      pure (showDense [b.r0, x.r0] (fun i => r (i.getD 0 0) (i.getD 1 0)))
+  | "localprod" => do
+      let (dl, PL) ← dense; let (dr, PR) ← dense; let A ← core; let u ← core
+      let r := Kern.localProduct (fun a b c => PL [a,b,c]) (fun a b c => PR [a,b,c]) A u
+      pure (showDense [dl.getD 0 0, A.m, dr.getD 0 0] (fun i => r (i.getD 0 0) (i.getD 1 0) (i.getD 2 0)))
+  | "linop" => do
+      let (dl, PL) ← dense; let (dr, PR) ← dense; let A ← core; let u ← core
+      let r := Kern.linopMatvec (fun a b c => PL [a,b,c]) (fun a b c => PR [a,b,c]) A u
+      pure (showDense [dl.getD 0 0, A.m, dr.getD 0 0] (fun i => r (i.getD 0 0) (i.getD 1 0) (i.getD 2 0)))
+  | "localrhs" => do
+      let (dl, PL) ← dense; let (dr, PR) ← dense; let b ← core
+      let r := Kern.localRhs (fun a c => PL [a,c]) (fun a c => PR [a,c]) b
+      pure (showDense [dl.getD 1 0, b.m, dr.getD 1 0] (fun i => r (i.getD 0 0) (i.getD 1 0) (i.getD 2 0)))
+  | "phifwdAB" => do
+      let (_, P) ← dense; let A ← core; let B ← core; let X ← core
+      let r := Kern.phiFwdAB (fun a b c => P [a,b,c]) A B X
+      pure (showDense [X.r1, A.r1, B.r1] (fun i => r (i.getD 0 0) (i.getD 1 0) (i.getD 2 0)))
+  | "phibckAB" => do
+      let (_, P) ← dense; let A ← core; let B ← core; let X ← core
+      let r := Kern.phiBckAB (fun a b c => P [a,b,c]) A B X
+      pure (showDense [X.r0, A.r0, B.r0] (fun i => r (i.getD 0 0) (i.getD 1 0) (i.getD 2 0)))
+  | "localAB" => do
+      let (dl, PL) ← dense; let (dr, PR) ← dense; let A ← core; let B ← core
+      let r := Kern.localAB (fun a b c => PL [a,b,c]) (fun a b c => PR [a,b,c]) A B
+      pure (showDense [dl.getD 0 0, A.m, B.n, dr.getD 0 0] (fun i => r (i.getD 0 0) (i.getD 1 0) (i.getD 2 0) (i.getD 3 0)))
+  | "phifwdX" => do
+      let (_, P) ← dense; let x ← core; let y ← core
+      let r := Kern.phiFwdX (fun a c => P [a,c]) x y
+      pure (showDense [x.r1, y.r1] (fun i => r (i.getD 0 0) (i.getD 1 0)))
+  | "phibckX" => do
+      let (_, P) ← dense; let x ← core; let y ← core
+      let r := Kern.phiBckX (fun a c => P [a,c]) x y
+      pure (showDense [x.r0, y.r0] (fun i => r (i.getD 0 0) (i.getD 1 0)))
+  | "reshapemodes" => do
+      let src ← natList; let dst ← natList
+      match Sweep.reshapeModes src dst with
+      | some (ms, sp) => pure s!"modes {ms} splits {sp}"
+      | none => pure "none"
+  | "permuteorder" => do
+      let dims ← natList
+      let (o, sw) := Sweep.permuteOrder dims
+      pure s!"order {o} swaps {sw.length}"
   | "heapeffect" => do
       let name ← next; let t ← nat
       pure s!"sc {if Heap.writeAllowed name (t == 1) then 1 else 0}"
@@ -356,8 +415,3 @@ partial def loop (h : IO.FS.Stream) (out : IO.FS.Stream) : IO Unit := do
   loop h out
 
 end TT.Driver
-
-def main : IO Unit := do
-  let stdin ← IO.getStdin
-  let stdout ← IO.getStdout
-  TT.Driver.loop stdin stdout
